@@ -41,44 +41,7 @@ def timeout(tier):
     return 300 if tier == "quick" else 1500
 
 
-class DstTz(datetime.tzinfo):
-    """A zone whose offset depends on the date, with the repeated hour told apart by ``fold`` (PEP 495) - what zoneinfo gives a caller.
-    Rule: daylight time from the second Sunday of March 02:00 to the first Sunday of November 02:00 (local), shifting by ``shift`` minutes."""
-
-    def __init__(self, std_minutes, shift, names):
-        self.std, self.shift, self.names = datetime.timedelta(minutes=std_minutes), datetime.timedelta(minutes=shift), names
-
-    @staticmethod
-    def _nth_sunday(year, month, n):
-        d = datetime.datetime(year, month, 1, 2)
-        d += datetime.timedelta(days=(6 - d.weekday()) % 7 + 7 * (n - 1))
-        return d
-
-    def _is_dst(self, dt):
-        naive = dt.replace(tzinfo=None, fold=0)
-        start, end = self._nth_sunday(dt.year, 3, 2), self._nth_sunday(dt.year, 11, 1)
-        if start + self.shift <= naive < end - self.shift:
-            return True
-        if start <= naive < start + self.shift:
-            return True  # the skipped hour: counted as daylight time
-        if end - self.shift <= naive < end:
-            return dt.fold == 0  # the repeated hour: first pass daylight, second pass standard
-        return False
-
-    def utcoffset(self, dt):
-        return self.std + (self.shift if self._is_dst(dt) else datetime.timedelta(0))
-
-    def dst(self, dt):
-        return self.shift if self._is_dst(dt) else datetime.timedelta(0)
-
-    def tzname(self, dt):
-        return self.names[1 if self._is_dst(dt) else 0]
-
-    def transitions(self, year):
-        return self._nth_sunday(year, 3, 2), self._nth_sunday(year, 11, 1)
-
-
-DST_ZONES = [(-300, 60, ("EST", "EDT")), (630, 30, ("LHST", "LHDT")), (60, 60, ("CET", "CEST")), (-210, 60, ("NST", "NDT"))]
+from vf.gen.values import DST_ZONES, DstTz  # noqa: E402  (zones whose offset depends on the date, shared with the model generators)
 
 
 class FixedTz(datetime.tzinfo):
